@@ -341,6 +341,8 @@ impl OutputFormat for IcyDraw {
         let mut len = 0;
         let mut last_info = 0;
         let mut is_running = true;
+        // the built-in font of a new buffer is kept only for a file that does not bring any font
+        let mut has_font_chunk = false;
         while is_running {
             match decoder.update(&data[len..], &mut Vec::new()) {
                 Ok((b, _)) => {
@@ -414,6 +416,10 @@ impl OutputFormat for IcyDraw {
                                                 let (font_name, size) = read_utf8_encoded_string(&bytes[o..])?;
                                                 o += size;
                                                 let font = BitFont::from_bytes(font_name, &bytes[o..])?;
+                                                if !has_font_chunk {
+                                                    has_font_chunk = true;
+                                                    result.clear_font_table();
+                                                }
                                                 result.set_font(font_slot, font);
                                                 continue;
                                             }
